@@ -746,6 +746,37 @@ pub fn run(seed: u64, count: usize, tier: &str, sink: &mut Sink) {
         sink.stat("family.deep-nesting");
         run_tree(&t, &[], &[HParams { cdata: vec![], indent: Some(vec![]) }, HParams::plain()], sink);
     }
+    // the Pretty stack (shared with the XML serialiser): every level independently in / out of
+    // xml:space, mixed content (text or an inline element), suppress-listed, formatted (seed C14i)
+    for _ in 0..(if tier == "quick" { 40 } else { 300 }) {
+        let (t, sup) = with_vocab(|hv| {
+            use GValue::*;
+            let div = hv.id("div", 0);
+            let ul = hv.id("ul", 0);
+            let space = hv.id("space", 1);
+            let mut t = GTree::new(Element(div), vec![GTree::new(Element(hv.id("p", 0)), vec![]), GTree::new(Element(hv.id("hr", 0)), vec![])]);
+            for _ in 0..(2 + rng.below(4)) {
+                let mut kids = vec![];
+                match rng.below(4) {
+                    0 => kids.push(GTree::leaf(Attribute(space, "preserve".into()))),
+                    1 => kids.push(GTree::leaf(Attribute(space, "default".into()))),
+                    _ => {}
+                }
+                let mixed = rng.below(4);
+                if mixed == 0 {
+                    kids.push(GTree::leaf(Text("text".into())));
+                }
+                kids.push(t);
+                if mixed == 1 {
+                    kids.push(GTree::new(Element(hv.id("span", 0)), vec![]));
+                }
+                t = GTree::new(Element(if rng.chance(1, 4) { ul } else { div }), kids);
+            }
+            (GTree::new(Document, vec![GTree::new(Element(hv.id("html", 0)), vec![GTree::new(Element(hv.id("body", 0)), vec![t])])]), ul)
+        });
+        sink.stat("family.pretty-stack");
+        run_tree(&t, &[], &[HParams { cdata: vec![], indent: Some(vec![sup]) }, HParams { cdata: vec![], indent: Some(vec![]) }], sink);
+    }
     let search = tier == "search";
     for _ in 0..count {
         let (t, params) = with_vocab(|hv| {
